@@ -201,13 +201,17 @@ where
             }
             _ => Err("unsupported enumerate operand".into()),
         },
-        It::CfgRep(inner) => match &**inner {
+        It::CfgRep(inner, how) => match &**inner {
             It::Rep(a, lo, hi) => {
                 let mut r = build(a, env)?.repeated().at_least(*lo);
                 if *hi >= 0 {
                     r = r.at_most(*hi as usize);
                 }
-                consume(r.configure(|cfg, ctx: &Val| cfg.exactly(ctx.ctx_num())), cons)
+                match how {
+                    0 => consume(r.configure(|cfg, ctx: &Val| cfg.exactly(ctx.ctx_num())), cons),
+                    1 => consume(r.configure(|cfg, ctx: &Val| cfg.at_least(ctx.ctx_num())), cons),
+                    _ => consume(r.configure(|cfg, ctx: &Val| cfg.at_most(ctx.ctx_num())), cons),
+                }
             }
             _ => Err("unsupported configure operand".into()),
         },
@@ -241,13 +245,17 @@ where
             }
             Ok(r.map(|()| Val::U).boxed())
         }
-        It::CfgRep(inner) => match &**inner {
+        It::CfgRep(inner, how) => match &**inner {
             It::Rep(a, lo, hi) => {
                 let mut r = build(a, env)?.repeated().at_least(*lo);
                 if *hi >= 0 {
                     r = r.at_most(*hi as usize);
                 }
-                Ok(r.configure(|cfg, ctx: &Val| cfg.exactly(ctx.ctx_num())).map(|()| Val::U).boxed())
+                Ok(match how {
+                    0 => r.configure(|cfg, ctx: &Val| cfg.exactly(ctx.ctx_num())).map(|()| Val::U).boxed(),
+                    1 => r.configure(|cfg, ctx: &Val| cfg.at_least(ctx.ctx_num())).map(|()| Val::U).boxed(),
+                    _ => r.configure(|cfg, ctx: &Val| cfg.at_most(ctx.ctx_num())).map(|()| Val::U).boxed(),
+                })
             }
             _ => Err("unsupported configure operand".into()),
         },
